@@ -249,6 +249,7 @@ fn request_case<const N: usize>(c: &mut Ctx, name: &str, k: usize, mi: usize) {
     }
 
     // --- blind-sign, unblind with the requester's factor, judge with the C07 oracle
+    let vbm_for_degenerate = vbm.clone();
     let bs = vbm.blind_sign(&kp, &mut rng);
     let sig: Signature = bs.unblind(bf);
     let sa = match sig_atoms(&sig) {
@@ -302,6 +303,31 @@ fn request_case<const N: usize>(c: &mut Ctx, name: &str, k: usize, mi: usize) {
                 &format!("C08 unblinded-signature-verifies-on-changed-message N={} change={}", N, kind),
                 sdetail(&m2, oracle, &libv, json!({"coordinate": j, "kind": kind})),
             );
+        }
+    }
+    // a signer whose randomiser is zero hands back the all-identity signature: whatever it does on the
+    // requester's own tuple, it must verify on no tuple differing in a coordinate
+    {
+        let mut zr = crate::srng::ScriptRng::new([3u8; 32]);
+        zr.inject(0, vec![0u8; 64]);
+        let sig0: Signature = vbm_for_degenerate.blind_sign(&kp, &mut zr).unblind(bf);
+        if zr.consumed == 1 {
+            for j in 0..N {
+                let mut m2 = m.vals;
+                m2[j] += Scalar::one();
+                c.eval();
+                c.distinct(&format!("{}/zero-randomiser-signer/coord={}", key, j));
+                let lib = guard(|| sig0.verify(pk, &Message::new(m2)));
+                c.count("zero-randomiser-signature-on-changed-message", 1);
+                if !matches!(lib, Ok(false)) {
+                    c.violation(
+                        &format!("C08 unblinded-signature-verifies-on-changed-message N={} change=zero-randomiser-signer", N),
+                        json!({"coordinate": j, "library_verify": format!("{:?}", lib.map_err(|p| p.message)), "info": base}),
+                    );
+                }
+            }
+        } else {
+            c.inconclusive("C08: zero randomiser was not consumed by blind_sign");
         }
     }
     if mi < 2 {
